@@ -80,10 +80,11 @@ def reqs_gen(rng, case):
         base = b'/' + b'/'.join(k)
         r = rng.random()
         if r < 0.3: p = base
-        elif r < 0.38: p = base + b'/'
+        elif r < 0.36: p = base + b'/'
+        elif r < 0.38: p = base + rng.choice([b'//', b'///', b'/./', b'//index.html'])          # doubled separators at the end
         elif r < 0.45: p = base + rng.choice([b'.html', b'.txt', b'x', b'%00', b'.'])
         elif r < 0.52: p = b'/'.join(base.split(b'/')[:-1]) or b'/'
-        elif r < 0.60: p = base.replace(b'/', b'//', 1) if rng.random() < 0.5 else base.replace(b'/', b'%2F', rng.choice([1, 2]))
+        elif r < 0.60: p = rng.choice([base.replace(b'/', b'//', 1), b'//'.join(base.rsplit(b'/', 1)), base.replace(b'/', b'//')]) if rng.random() < 0.5 else base.replace(b'/', b'%2F', rng.choice([1, 2]))
         elif r < 0.68: p = mount + b'/../' + rng.choice([b'outside/secret.txt', b'etc/passwd', b'pub/' + b'/'.join(k[-1:])])
         elif r < 0.75: p = base + b'/..' if rng.random() < 0.5 else b'/'.join(base.split(b'/')[:-1]) + b'/./' + k[-1]
         elif r < 0.82: p = base.replace(b'a', b'%61', 1)
